@@ -37,6 +37,15 @@ fn cfb_uppercase_char(c: char) -> char {
     case_mapper.simple_uppercase(c)
 }
 
+/// Returns the UTF-16 code units of the name after uppercasing each char.
+fn uppercase_utf16(name: &str) -> impl Iterator<Item = u16> + '_ {
+    name.chars().map(cfb_uppercase_char).flat_map(|chr| {
+        let mut buf = [0u16; 2];
+        let len = chr.encode_utf16(&mut buf).len();
+        (0..len).map(move |index| buf[index])
+    })
+}
+
 /// Compares two directory entry names according to CFB ordering, which is
 /// case-insensitive, and which always puts shorter names before longer names,
 /// as encoded in UTF-16 (i.e. [shortlex
@@ -69,9 +78,10 @@ pub fn compare_names(name1: &str, name2: &str) -> Ordering {
             // units, along with a list of weird exceptions and corner cases.  But
             // hopefully this is good enough for 99+% of the time.
             Ordering::Equal => {
-                let n1 = name1.chars().map(cfb_uppercase_char);
-                let n2 = name2.chars().map(cfb_uppercase_char);
-                n1.cmp(n2)
+                // Compare UTF-16 code units (not code points), as specified
+                // in MS-CFB section 2.6.4; the two orders differ for
+                // supplementary-plane characters vs. U+E000..=U+FFFF.
+                uppercase_utf16(name1).cmp(uppercase_utf16(name2))
             }
             other => other,
         }
